@@ -31,7 +31,7 @@ ID = "C04"
 GCC = shutil.which("gcc")
 DIRS = ["src", "src/sub", "inc1", "inc2"]
 TAG = {"src": "SRC", "src/sub": "SUB", "inc1": "I1", "inc2": "I2"}
-STYLES = ["none", "guard", "sameguard", "once"]
+STYLES = ["none", "guard", "sameguard", "once", "otherpragma"]   # otherpragma: a #pragma that is not "once" must not make the header include-once
 DIRECTIVES = ['#include "h.h"', "#include <h.h>", '#include "sub/k.h"', "#include <g.h>", "#include H_Q", "#include H_A",
               # X-macro pattern: an unguarded dispatch header whose computed include is re-evaluated under the macro state of each inclusion
               '#undef IMPL\n#define IMPL "h.h"\n#include "disp.h"', '#undef IMPL\n#define IMPL <h.h>\n#include "disp.h"',
@@ -47,6 +47,8 @@ def h_text(d, style):
         return "\n".join(["#ifndef H_GUARD", "#define H_GUARD"] + body + ["#endif"]) + "\n"
     if style == "once":
         return "\n".join(["#pragma once"] + body) + "\n"
+    if style == "otherpragma":
+        return "\n".join(["#pragma unroll 4"] + body) + "\n"
     return "\n".join(body) + "\n"
 
 
@@ -145,7 +147,7 @@ def gcc_emitted(root, slist, forced):
     p = subprocess.run([GCC, "-E", "-P"] + flags(root, slist, forced) + ["src/main.c"], cwd=root, capture_output=True, text=True)
     if p.returncode != 0 or p.stderr.strip():
         return None
-    return [ln.strip() for ln in p.stdout.splitlines() if ln.strip()]
+    return [ln.strip() for ln in p.stdout.splitlines() if ln.strip() and not ln.startswith("#pragma")]
 
 
 def describe(case):
@@ -303,7 +305,7 @@ def run(tier):
             for sq in seqs:
                 for sl in slists:
                     for forced in ((False, True) if (tier == "thorough" or (len(sq) + len(sl)) % 2 == 0) else (False,)):
-                        if tier == "quick" and len(sq) == 2 and (hash((pl, st, sq, sl)) + env.SEED) % 4:
+                        if tier == "quick" and len(sq) == 2 and (hash((pl, st, sq, sl)) + env.SEED) % 5:
                             continue
                         cases.append((pl, st, sq, sl, forced))
     chunks = [cases[i:i + 400] for i in range(0, len(cases), 400)]
@@ -317,9 +319,9 @@ def run(tier):
     rep.coverage.update({
         "states": sinfo["states"], "transitions": sinfo["transitions"], "traces_validated_against_impl": sinfo["transitions"] + judged,
         "evaluations": n + sinfo["transitions"], "distinct_nontrivial": judged,
-        "rule": "15 placements of h.h x 4 guard styles x include sequences of length <=%d over 9 directive forms (incl. the X-macro dispatch pattern) x 13 ordered -I/-isystem search lists x -include on/off%s; "
+        "rule": "15 placements of h.h x 5 header styles (plain, #ifndef guard, shared guard name, #pragma once, another #pragma) x include sequences of length <=%d over 9 directive forms (incl. the X-macro dispatch pattern) x 13 ordered -I/-isystem search lists x -include on/off%s; "
                 "non-trivial = no header missing; S: BFS over find_include_file call sequences (4 names x 4 directories x 2 forms)" % (
-                    2 if tier == "quick" else 3, " (length-2 sequences: a seed-rotated quarter)" if tier == "quick" else ""),
+                    2 if tier == "quick" else 3, " (length-2 sequences: a seed-rotated fifth)" if tier == "quick" else ""),
         "cases": n, "judged": judged, "missing_header_excluded": n - judged, "failing_cases": sum(r[2] for r in res),
         "S": sinfo,
         "oracle_gcc": {"available": bool(GCC), "cases_checked": sum(r[4][0] for r in res), "disagreements": sum(r[4][1] for r in res),
